@@ -347,6 +347,12 @@ func (st *state) evaluate() *Result {
 		st.evalRank(res, vio)
 	}
 
+	// ---- idle timeout after progress (family idlestall) ------------------
+	fpSuffix := ""
+	if st.sc.Kind == "idlestall" {
+		fpSuffix = st.evalIdleStall(res, vio)
+	}
+
 	// ---- hypothesis 11 records ---------------------------------------------
 	for _, e := range st.log {
 		switch e.K {
@@ -390,7 +396,7 @@ func (st *state) evaluate() *Result {
 		p.mu.Unlock()
 	}
 	res.Fingerprint = fmt.Sprintf("%s/p%d/b%d/o=%s/s=%s/v=%s", st.sc.Kind, np, nb,
-		setStr(optSet), setStr(outSet), setStr(verdictSet))
+		setStr(optSet), setStr(outSet), setStr(verdictSet)) + fpSuffix
 	res.Nontrivial = len(verdictSet) > 0
 
 	res.Violations = st.vios
